@@ -9,7 +9,7 @@ use serde_json::json;
 use std::collections::BTreeMap;
 
 const LIMITS: [usize; 8] = [0, 1, 2, 3, 5, 10, 100, 1_000_000];
-const STEP_CAP: u64 = 400_000_000;
+const STEP_CAP: u64 = 5_000_000;
 const BT_ERR: &str = "RuntimeError(BacktrackLimitExceeded)";
 const SO_ERR: &str = "RuntimeError(StackOverflow)";
 
@@ -80,10 +80,11 @@ pub fn run(ctx: &Ctx) -> Outcome {
         acc.count("route:vm");
         let limited: Vec<(usize, Regex)> = LIMITS.iter().filter_map(|&l| build(&s, l).map(|r| (l, r))).collect();
         let rfm = refm::compile(p);
-        let k_factor = 64.0 * prog_len as f64 * repeat_factor(p);
+        let k_factor = 256.0 * prog_len as f64 * repeat_factor(p);
         let mut exact: BTreeMap<u64, Option<Regex>> = BTreeMap::new();
         let _ = hook_take();
         let mut both_sides = false;
+        let mut cap_hits = 0;
         for t in &texts {
             acc.evals += 1;
             let a = find_from(&re, t, 0);
@@ -93,17 +94,30 @@ pub fn run(ctx: &Ctx) -> Outcome {
             let bound = (b as f64 + 1.0) * k;
             if HOOKS {
                 let ratio = steps as f64 / bound;
-                let e = acc.counters.entry("max-steps/bound-ppm".into()).or_default();
-                *e = (*e).max((ratio * 1e6) as u64);
+                acc.max("steps/bound-ppm", (ratio * 1e6) as u64);
+                acc.max("steps-in-one-run", steps);
+                acc.max("backtracks-in-one-run", b);
                 if steps as f64 > bound {
                     let mut v = Violation::new("C07", "step-bound", &s, t, 0, "find", format!("<= (B+1)*K = {:.0} VM steps (B = {} backtracks)", bound, b), format!("{} steps{}", steps, if a.is_step_cap() { " (step cap hit: run did not end)" } else { "" }));
-                    v.note = "K = 64 * |prog| * (chars+2) * prod(1+count)".into();
+                    v.note = "K = 256 * |prog| * (chars+2) * prod(1+count)".into();
                     acc.violate(v);
+                    if a.is_step_cap() {
+                        cap_hits += 1;
+                        if cap_hits >= 2 {
+                            acc.count("patterns-abandoned-after-2-step-cap-hits");
+                            return;
+                        }
+                    }
                     continue;
                 }
             }
             if a.is_step_cap() {
                 acc.inconclusive += 1;
+                cap_hits += 1;
+                if cap_hits >= 2 {
+                    acc.count("patterns-abandoned-after-2-step-cap-hits");
+                    return;
+                }
                 continue;
             }
             if a.is_panic() {
@@ -130,6 +144,15 @@ pub fn run(ctx: &Ctx) -> Outcome {
                 let ok = if (l as u64) >= b { r == a } else { r == a || r == Got::Err(BT_ERR.into()) };
                 if !ok {
                     let mut v = Violation::new("C07", "limit-semantics", &s, t, 0, "find", if (l as u64) >= b { format!("{} (limit {} >= {} backtracks needed)", a.show(), l, b) } else { format!("BacktrackLimitExceeded or {}", a.show()) }, r.show());
+                    v.options = json!({"backtrack_limit": l, "backtracks_needed": b});
+                    acc.violate(v);
+                }
+                // the limit governs every entry point alike: captures and is_match run the same program
+                let rc = captures_from(lre, t, 0).map(|c| c.as_ref().map(|c| c[0].unwrap_or((usize::MAX, usize::MAX))));
+                let ri = is_match(lre, t);
+                let _ = acc.take_hooks();
+                if rc != r || ri != r.map(|o| o.is_some()) {
+                    let mut v = Violation::new("C07", "limit-semantics", &s, t, 0, "captures / is_match vs find under the same limit", r.show(), format!("captures: {}, is_match: {}", rc.show(), ri.show()));
                     v.options = json!({"backtrack_limit": l, "backtracks_needed": b});
                     acc.violate(v);
                 }
@@ -164,8 +187,8 @@ pub fn run(ctx: &Ctx) -> Outcome {
     });
     let mut out = Outcome::new(acc);
     out.distinct_nontrivial = out.acc.distinct;
-    out.rule = format!("{}{}; x all {} texts over 1-4 byte characters up to length 3. Per (pattern, text): run with the default limit, read backtracks B / VM steps S through the hook, then (1) for L in {{0,1,2,3,5,10,100,10^6}} and the exact thresholds L = B and L = B-1: L >= B => same answer, L < B => BacktrackLimitExceeded or the same answer; (2) S <= (B+1)*64*|prog|*(chars+2)*prod(1+count), enforced online by a VM step cap of {} so a non-terminating run is observed as a cap hit; (3) if the reference explores the case within 5000 steps the default-limit run must not report StackOverflow / BacktrackLimitExceeded. Non-trivial: distinct VM patterns with B >= 1 on some text for which limits fell on both sides of B.", sp.describe, if ctx.tier == Tier::Quick { " + a seeded twelfth of the 4-node trees" } else { "" }, texts.len(), STEP_CAP);
-    out.assumptions = vec!["the step bound K is a calibrated constant with >= two orders of magnitude of slack over every legitimate run observed (counters.max-steps/bound-ppm reports how close this run came, in millionths)".into()];
+    out.rule = format!("{}{}; x all {} texts over 1-4 byte characters up to length 3. Per (pattern, text): run with the default limit, read backtracks B / VM steps S through the hook, then (1) for L in {{0,1,2,3,5,10,100,10^6}} and the exact thresholds L = B and L = B-1: L >= B => same answer, L < B => BacktrackLimitExceeded or the same answer; (2) S <= (B+1)*256*|prog|*(chars+2)*prod(1+count), enforced online by a VM step cap of {} so a non-terminating run is observed as a cap hit; (3) if the reference explores the case within 5000 steps the default-limit run must not report StackOverflow / BacktrackLimitExceeded. Non-trivial: distinct VM patterns with B >= 1 on some text for which limits fell on both sides of B.", sp.describe, if ctx.tier == Tier::Quick { " + a seeded twelfth of the 4-node trees" } else { "" }, texts.len(), STEP_CAP);
+    out.assumptions = vec!["the step bound K is a calibrated constant with >= two orders of magnitude of slack over every legitimate run observed (maxima.steps/bound-ppm reports how close this run came, in millionths)".into()];
     let et = out.acc.get("exact-threshold-cases");
     let vm = out.acc.get("route:vm");
     out.extra = json!({"exact_threshold_cases": et, "limits": LIMITS});
